@@ -30,6 +30,18 @@ func (it *Interp) opObsNew(op *Op) {
 	it.M.Obs = append(it.M.Obs, &os)
 	j := len(it.M.Obs) - 1
 	it.run(op, true, func(b *Backend) { it.makeObs(b, j) })
+	if op.Mode == 1 {
+		// register right away
+		it.M.Obs[j].Registered = true
+		it.run(op, true, func(b *Backend) {
+			if b.Pol.DropObsOdd && j%2 == 1 {
+				return
+			}
+			b.obs[j].Register(b.W)
+			b.obsOn[j] = true
+		})
+		it.checkObserverCount()
+	}
 }
 
 func (it *Interp) makeObs(b *Backend, j int) {
@@ -73,6 +85,12 @@ func (it *Interp) opObsReg(op *Op) {
 	o.Registered = op.Mode == 1
 	it.regAt[op.Q] = false // (un)registration itself emits nothing
 	it.run(op, true, func(b *Backend) {
+		if b.Pol.DropObsOdd && op.Q%2 == 1 {
+			return
+		}
+		if b.obsOn[op.Q] == (op.Mode == 1) {
+			return // this backend did not follow an in-callback unregistration (see DropObsOdd)
+		}
 		if op.Mode == 1 {
 			b.obs[op.Q].Register(b.W)
 		} else {
@@ -84,15 +102,23 @@ func (it *Interp) opObsReg(op *Op) {
 }
 
 func (it *Interp) checkObserverCount() {
-	n := 0
-	for _, o := range it.M.Obs {
-		if o.Registered {
-			n++
-		}
-	}
 	for _, b := range it.B {
 		if b.Pol.SkipStats {
 			continue
+		}
+		n := 0
+		for _, on := range b.obsOn {
+			if on {
+				n++
+			}
+		}
+		if !b.Pol.DropObsOdd {
+			n = 0
+			for _, o := range it.M.Obs {
+				if o.Registered {
+					n++
+				}
+			}
 		}
 		if got := b.W.Stats().Observers; got != n {
 			fail("stats|observers|count", "%s step %d: Stats.Observers=%d, model %d", b.Name, it.Step, got, n)
@@ -154,7 +180,7 @@ func (it *Interp) onEvent(b *Backend, j int, e ecs.Entity, p Ptrs, typed bool) {
 	if it.Opt.Inspect {
 		it.inspect(b, j, s, e)
 	}
-	if os.UnregP1 > 0 {
+	if os.UnregP1 > 0 && !b.Pol.DropObsOdd {
 		k := os.UnregP1 - 1
 		if k < len(b.obsOn) && b.obsOn[k] {
 			b.obs[k].Unregister(b.W)
@@ -205,7 +231,14 @@ func (it *Interp) inspect(b *Backend, j int, s int, e ecs.Entity) {
 			if t >= len(b.H) || b.H[t].IsZero() {
 				continue // handle of a batch-created entity not seen yet
 			}
-			b.compareEntity(sigp+"|batch-timing", t, &state[t], where)
+			// a listed known finding for exactly this clause is counted and skipped, the case goes on
+			if v := catchViolation(func() { b.compareEntity(sigp+"|batch-timing", t, &state[t], where) }); v != nil {
+				if it.Opt.Known != nil && it.Opt.Known(v.Sig) {
+					it.ExcludedSigs[v.Sig]++
+					break
+				}
+				panic(v)
+			}
 		}
 	}
 	// every entity alive in the expected state appears exactly once in a query
@@ -234,6 +267,17 @@ func (it *Interp) inspect(b *Backend, j int, s int, e ecs.Entity) {
 		}
 	}
 	it.count("inspected-callbacks")
+	if removal || it.batch {
+		lay := map[string]bool{}
+		for t := range state {
+			if state[t].Alive {
+				lay[layoutKey(&state[t])] = true
+			}
+		}
+		if len(lay) >= 2 {
+			it.count("inspected-removal-or-batch")
+		}
+	}
 }
 
 // ---------------------------------------------------------------------------------------------
@@ -359,6 +403,11 @@ func (it *Interp) opOpenQuery(op *Op) {
 // statistics
 
 func (it *Interp) opStats(op *Op) {
+	it.count("stats-calls")
+	if it.Cnt["stats-calls"] >= 2 && it.Cnt["table-emptied-since-stats"] > 0 {
+		it.count("stats-after-table-emptied")
+	}
+	it.Cnt["table-emptied-since-stats"] = 0
 	for _, b := range it.B {
 		if b.Pol.SkipStats {
 			continue
@@ -485,6 +534,14 @@ func (it *Interp) checkStats(b *Backend, sigp string) {
 	if !b.Pol.UncachedOnly && st.CachedFilters != nf {
 		fail(sigp+"|world|cached-filters", "%s: CachedFilters=%d, model %d", where, st.CachedFilters, nf)
 	}
+	if b.Pol.DropObsOdd {
+		no = 0
+		for _, on := range b.obsOn {
+			if on {
+				no++
+			}
+		}
+	}
 	if st.Observers != no {
 		fail(sigp+"|world|observers", "%s: Observers=%d, model %d", where, st.Observers, no)
 	}
@@ -588,3 +645,18 @@ func (it *Interp) opResource(op *Op) {
 }
 
 var _ = runtime.GC
+
+// catchViolation runs f and returns the violation it raised, if any.
+func catchViolation(f func()) (v *Violation) {
+	defer func() {
+		if r := recover(); r != nil {
+			if vv, ok := r.(*Violation); ok {
+				v = vv
+				return
+			}
+			panic(r)
+		}
+	}()
+	f()
+	return nil
+}
